@@ -14,7 +14,7 @@
 (* conversion formulas on the exactly modelled domain (units: TimeSpan in   *)
 (* milliseconds, DateTime in Unix seconds).                                 *)
 (***************************************************************************)
-EXTENDS VariantOps, Json, TLC
+EXTENDS VariantOps, Json, TLC, Held
 VARIABLES l, held      \* held: type and payload of every result the long-lived manager of the current history has handed out
 Trace == ndJsonDeserialize("trace.ndjson")
 F(ok, name) == IF ok THEN "" ELSE name \o "; "
@@ -98,7 +98,7 @@ Next ==
              CASE e.op = "hstart" -> <<>>
                [] e.op = "hconv" -> IF e.keep THEN Append(held, <<e.r.t, e.r.s>>) ELSE held
                [] OTHER -> held
-  /\ LET f == Fails(Trace[l]) IN f = "" \/ PrintT("VERIF-FAIL " \o ToString(l) \o " " \o f)
+  /\ LET f == Fails(Trace[l]) IN Report(l, f, Trace[l])
 Spec == Init /\ [][Next]_<<l, held>>
 Accepted == TLCGet("stats").diameter - 1 = Len(Trace)
 =============================================================================
